@@ -76,6 +76,7 @@ func execute(res *vh.Result, tr *vh.Trace, rs runSpec) runOut {
 		cyc     bool
 		nextM   int
 		lastOff = -1
+		drifted bool
 		lastOp  opcode.Opcode
 	)
 	observe := func() obs {
@@ -107,14 +108,24 @@ func execute(res *vh.Result, tr *vh.Trace, rs runSpec) runOut {
 		o := observe()
 		refs := v.VerifRefs()
 		onb := off >= 0 && off < len(bnd) && bnd[off]
+		tt := ""
+		if es := v.Estack(); es != nil {
+			for k := 0; k < 3 && k < es.Len(); k++ {
+				if k > 0 {
+					tt += ","
+				}
+				tt += es.Peek(k).Item().Type().String()
+			}
+		}
 		ev := map[string]any{"e": "s", "o": off, "op": int(op), "r": refs, "w": o.Walked, "c": o.Cyc, "b": o.Bits,
-			"z": o.Size, "i": o.IDepth, "t": o.TDepth, "g": limbs(v.GasConsumed()), "k": onb}
+			"z": o.Size, "i": o.IDepth, "t": o.TDepth, "g": limbs(v.GasConsumed()), "k": onb, "tt": tt}
 		tr.Emit(ev)
 		res.Count([]any{rs.Src[:3], int(lastOp), int(op), refs - o.Walked, o.Cyc, o.IDepth, o.TDepth})
 		if nextM < len(rs.Marks) && rs.Marks[nextM].Off == off {
 			m := rs.Marks[nextM]
 			nextM++
-			if m.Refs != refs || m.Walked != o.Walked {
+			if !drifted && (m.Refs != refs || m.Walked != o.Walked) {
+				drifted = true // later predictions of this run inherit the difference: one record per run
 				res.Inc("drift", 1)
 				res.AddDrift(map[string]any{"src": rs.Src, "step": m.Step, "op": m.Op, "predicted_refs": m.Refs,
 					"predicted_walked": m.Walked, "refs": refs, "walked": o.Walked, "script": hex.EncodeToString(rs.Script)})
